@@ -54,17 +54,38 @@ void ev(std::string s) {
 }
 
 // ---------------------------------------------------------------- watchdog: an operation that never finishes is a failure
+// (exit code 96).  With `--hangfile <path>` every hang leaves a mark in that file, and once HANG_BUDGET marks exist the
+// remaining cases of the run are answered `skipped hang-budget` instead of being executed: a library change that makes
+// every blocking access hang must not turn one check run into hours of watchdog time-outs.
 std::atomic<long> wd_tick{0};
+std::string hangfile;
+constexpr long HANG_BUDGET = 6;
+long hang_marks() {
+    if (hangfile.empty()) return 0;
+    FILE *f = fopen(hangfile.c_str(), "rb");
+    if (!f) return 0;
+    fseek(f, 0, SEEK_END);
+    long n = ftell(f);
+    fclose(f);
+    return n;
+}
 void watchdog() {
     long last = -1;
     int same = 0;
     for (;;) {
-        std::this_thread::sleep_for(std::chrono::milliseconds(500));
+        std::this_thread::sleep_for(std::chrono::milliseconds(250));
         long t = wd_tick.load();
         if (t == last && t >= 0) {
-            if (++same >= 20) {
+            if (++same >= 16) {
                 std::cout.flush();
-                fprintf(stderr, "HANG: an operation did not finish within 10 s\n");
+                if (!hangfile.empty()) {
+                    FILE *f = fopen(hangfile.c_str(), "ab");
+                    if (f) {
+                        fputc('h', f);
+                        fclose(f);
+                    }
+                }
+                fprintf(stderr, "HANG: an operation did not finish within 4 s\n");
                 fflush(stderr);
                 _exit(96);
             }
@@ -605,8 +626,10 @@ struct Case {
 
 }  // namespace
 
-int main() {
+int main(int argc, char **argv) {
     std::ios::sync_with_stdio(false);
+    for (int i = 1; i + 1 < argc; ++i)
+        if (std::string(argv[i]) == "--hangfile") hangfile = argv[i + 1];
     g_helper = new Helper();   // never destroyed: its thread waits on it for the whole process lifetime
     Helper &helper = *g_helper;
     std::thread(watchdog).detach();
@@ -616,6 +639,10 @@ int main() {
         if (w.empty() || w[0] != "case") continue;
         wd_tick++;
         std::cout << "case " << w[1] << "\n";
+        if (hang_marks() >= HANG_BUDGET) {
+            std::cout << "skipped hang-budget\n";
+            continue;   // the lines of the case are skipped by the loop (no `case` keyword)
+        }
         helper.delay = w.size() > 3 ? atoi(w[3].c_str()) : 0;
         {
             std::lock_guard<std::mutex> lk(helper.mx);
